@@ -674,9 +674,10 @@ def deduce_layout(text: str, candidates: list = None):
 
     text = text.strip()
 
-    # No need to capture section number. Just want to check position in
-    # relation to Twp/Rge.
-    sec_mo = no_num_sec_regex.search(text)
+    # Just want to check the position of the first section in relation to
+    # Twp/Rge. (Search for the word 'Section' etc. WITH a number, so that
+    # 'Second Addition' or 'Sector 7' is not mistaken for a section.)
+    sec_mo = sec_regex.search(text)
     twprge_mo = twprge_regex.search(text)
 
     if not sec_mo or not twprge_mo:
